@@ -570,10 +570,12 @@ def run(ctx):
         "samples": [rows[0]["ops"][:2]],
         "correspondence_mismatches": len(bad),
         "shape_stage": {
-            "rule": "seeded asynchronous schedules (reconnects included) on two real "
-                    "LightningChannels; `shape` (wf, local_sub_conf for remote and pending, cut "
-                    "order, one record per HTLC) evaluated on EVERY party dump of every step; "
-                    "the same schedules replayed on Channel/Model.v (Channel.Exec)",
+            "rule": "seeded asynchronous schedules (reconnects and reloads from the channel DB "
+                    "included) on two real LightningChannels; `shape` (wf, local_sub_conf for "
+                    "remote and pending, cut order, one record per HTLC) evaluated on EVERY party "
+                    "dump of every step, live and reloaded; schedules must pass C01 no_errors / "
+                    "agreement and C02 reload_consistent and are replayed on Channel/Model.v "
+                    "(Channel.Exec)",
             "schedules": len(shp.get("rows") or []),
             "steps": sum(len(r["steps"]) for r in shp.get("rows") or []),
             "stats": shp.get("stats"),
@@ -585,7 +587,11 @@ def run(ctx):
     ctx.assumptions += [
         "the arbitrator goroutine is not started: the harness calls handleBlockbeat / "
         "advanceState(userTrigger) / handle*CloseEvent directly, one event at a time",
-        "per HTLC index the peer's current and pending commitment agree on dust-ness "
-        "(otherwise checkRemoteDanglingActions depends on Go map iteration order)",
+        "per HTLC index the peer's current and pending commitment agree on dust-ness in the "
+        "generated arbitrator cases (otherwise checkRemoteDanglingActions depends on Go map "
+        "iteration order); such states ARE reachable (C12_shape_dust_disagreement_reachable), "
+        "the theorems cover them with the model's first-record resolution",
+        "shape stage: the HTLC sets handed to the arbitrator are those of ONE channel state "
+        "(LocalCommitment / RemoteCommitment / pending remote commitment at the time of the close)",
         "legacy logs without a CommitSet (FetchChainActions path) are out of scope",
     ]
